@@ -507,6 +507,8 @@ def copy_id(ctx: Ctx) -> List[Ob]:
             if not (callee_is_ctor or callee_is_add):
                 continue
             s = norm(src)
+            # a stable name for the report key: parameters keep their (API) name, locals are "<source>"
+            sk = s if (isinstance(src, ast.Name) and src.id in f.top.param_names() + f.param_names()) else "<source>"
             idtexts = {f"{s}._data_id", f"{s}.data_id"}
             a_id = None
             for k in c.keywords:
@@ -517,7 +519,7 @@ def copy_id(ctx: Ctx) -> List[Ob]:
                 r = env.reaching(f, c, a_id.id)
                 vals = r[0] if r is not None else [b.expr for b in env.scope(f).resolve(a_id.id)[1] if b.kind == "val"]
                 ok = any(_mentions(v, idtexts) for v in vals)
-            obs.append(ctx.ob("COPY-ID", ["C07", "C05", "C02"] + (["C08"] if "_add_filtered" in f.qualname or f.name == "_add_from" else []), f, f"copy of {s}.data carries {s}._data_id", c, ok,
+            obs.append(ctx.ob("COPY-ID", ["C07", "C05", "C02"] + (["C08"] if "_add_filtered" in f.qualname or f.name == "_add_from" else []), f, f"copy of {sk}.data carries {sk}._data_id", c, ok,
                               "" if ok else f"the copy of `{s}` gets data_id={norm(a_id) if a_id is not None else 'None'} -> recomputed by calc_data_id(data): "
                               "a node with an explicit data_id is copied under hash(data) and leaves its clone group"))
             # kind for typed code
@@ -535,7 +537,7 @@ def copy_id(ctx: Ctx) -> List[Ob]:
                 if not okk and isinstance(a_kind, ast.Name):
                     vals = [b.expr for b in env.scope(f).resolve(a_kind.id)[1] if b.kind == "val"]
                     okk = any(_mentions(v, kt) for v in vals)
-                obs.append(ctx.ob("COPY-KIND", ["C07"], f, f"copy of {s}.data carries {s}.kind", c, okk,
+                obs.append(ctx.ob("COPY-KIND", ["C07"], f, f"copy of {sk}.data carries {sk}.kind", c, okk,
                                   "" if okk else f"typed copy of `{s}` gets kind={norm(a_kind) if a_kind is not None else 'default'}: "
                                   "copied nodes lose their kind (become DEFAULT_CHILD_TYPE)"))
                 obs[-1].rule = "COPY-ID"
